@@ -1,25 +1,25 @@
 (* C12 -- Graceful-restart stale routes live exactly as long as the RFCs allow.
-   Statements only. Model: Session.Gr -- the receiving-speaker side for one peer and one family, whole seconds.
-   Long-lived GR and the restarting-speaker side are NOT covered by these theorems (see DESIGN.md). *)
+   Statements only. Model: Session.Gr -- the receiving-speaker side for one peer with the families IPv4 unicast (4) and
+   IPv6 unicast (6), whole seconds.  Long-lived GR and the restarting-speaker side are NOT covered (see DESIGN.md). *)
 From Coq Require Import List ZArith Bool.
 From Verif Require Import Session.Gr Session.GrProofs.
 Import ListNotations.
 Open Scope Z_scope.
 
-(* a qualifying loss keeps every route, marked stale, and arms the restart timer with the time the peer announced;
-   any other loss removes everything at once *)
+(* a qualifying loss keeps exactly the routes of the families the peer listed in its GR capability, marked stale, and
+   arms the restart timer with the time the peer announced; all its other routes, and everything on any other loss,
+   are removed at once *)
 Theorem C12_loss_split : forall k s l,
   gs_est s = true ->
   let s' := gstep k s (GLoss l) in
   if qualifying k s l
-  then map fst (gs_routes s') = map fst (gs_routes s) /\ Forall (fun r => snd r = true) (gs_routes s') /\
+  then (forall key st, In (key, st) (gs_routes s') <->
+          (st = true /\ fam_gr k (gs_cap s) (fst key) = true /\ exists st0, In (key, st0) (gs_routes s))) /\
        gs_restarting s' = true /\ gs_timer s' = Some (restart_time s)
   else gs_routes s' = [] /\ gs_restarting s' = false.
 Proof. exact loss_split. Qed.
 Print Assumptions C12_loss_split.
 
-(* which losses qualify: GR negotiated, and transport failure, hold-timer expiry, or a NOTIFICATION other than Hard
-   Reset when the N bit was negotiated *)
 Theorem C12_qualifying_cases : forall k s l,
   qualifying k s l = true <->
   gr_negotiated k s = true /\
@@ -28,8 +28,6 @@ Theorem C12_qualifying_cases : forall k s l,
 Proof. exact qualifying_cases. Qed.
 Print Assumptions C12_qualifying_cases.
 
-(* without re-establishment the stale routes stay untouched for restart-time - 1 seconds and are all gone exactly when
-   the restart timer expires *)
 Theorem C12_restart_timer_exact : forall k (n : nat) s,
   gs_est s = false -> gs_timer s = Some (Z.of_nat (S n)) ->
   (forall m, (m <= n)%nat -> gs_routes (gticks k m s) = gs_routes s /\ gs_restarting (gticks k m s) = gs_restarting s) /\
@@ -37,37 +35,46 @@ Theorem C12_restart_timer_exact : forall k (n : nat) s,
 Proof. exact restart_timer_exact. Qed.
 Print Assumptions C12_restart_timer_exact.
 
-(* after re-establishment End-of-RIB removes exactly the routes still stale; a re-announced route is fresh *)
-Theorem C12_eor_drops_exactly_the_stale : forall k s,
+(* after re-establishment: when End-of-RIB has arrived for every GR family of the new session, exactly the routes
+   still stale are removed, in every family; before that nothing is removed *)
+Theorem C12_eor_completes : forall k s f,
   gs_est s = true -> gs_restarting s = true ->
-  let s' := gstep k s GEor in
+  all_eor k (gs_cap s) (gs_eor4 s || (f =? 4)) (gs_eor6 s || (f =? 6)) = true ->
+  let s' := gstep k s (GEor f) in
   gs_restarting s' = false /\
-  forall p st, In (p, st) (gs_routes s') <-> (In (p, st) (gs_routes s) /\ st = false).
-Proof. exact eor_drops_exactly_the_stale. Qed.
-Print Assumptions C12_eor_drops_exactly_the_stale.
+  forall key st, In (key, st) (gs_routes s') <-> (In (key, st) (gs_routes s) /\ st = false).
+Proof. exact eor_completes. Qed.
+Print Assumptions C12_eor_completes.
 
-Theorem C12_announce_is_fresh : forall k s p, gs_est s = true -> In (p, false) (gs_routes (gstep k s (GAnn p))).
+Theorem C12_eor_incomplete_keeps : forall k s f,
+  gs_est s = true -> gs_restarting s = true ->
+  all_eor k (gs_cap s) (gs_eor4 s || (f =? 4)) (gs_eor6 s || (f =? 6)) = false ->
+  let s' := gstep k s (GEor f) in gs_restarting s' = true /\ gs_routes s' = gs_routes s.
+Proof. exact eor_incomplete_keeps. Qed.
+Print Assumptions C12_eor_incomplete_keeps.
+
+Theorem C12_announce_is_fresh : forall k s f p, gs_est s = true -> In ((f, p), false) (gs_routes (gstep k s (GAnn f p))).
 Proof. exact announce_is_fresh. Qed.
 Print Assumptions C12_announce_is_fresh.
 
 Theorem C12_reestablish_without_gr : forall k s cap,
-  gs_est s = false -> gs_restarting s = true ->
-  (gc_local_gr k = false \/ cap = None) ->
+  gs_est s = false -> gs_restarting s = true -> all_eor k cap false false = true ->
   let s' := gstep k s (GUp cap) in
   gs_restarting s' = false /\ Forall (fun r => snd r = false) (gs_routes s').
 Proof. exact reestablish_without_gr. Qed.
 Print Assumptions C12_reestablish_without_gr.
 
-(* over every history (incl. a second loss during the restart window): stale routes exist only while the peer is
-   restarting; with no session and no restart in progress nothing is retained; the timer runs exactly in between *)
 Theorem C12_invariants : forall k h, ginv (grun k h).
 Proof. exact ginv_run. Qed.
 Print Assumptions C12_invariants.
 
 Definition ex_k := mkGC true false.
+Definition c46 := Some (mkCap 3 false true true).
+Definition c4 := Some (mkCap 3 false true false).
 Example C12_nonvacuous :
-  gs_routes (grun ex_k [GUp (Some (3, false)); GAnn 1; GAnn 2; GLoss LTransport; GTick; GTick]) = [(1, true); (2, true)] /\
-  gs_routes (grun ex_k [GUp (Some (3, false)); GAnn 1; GAnn 2; GLoss LTransport; GTick; GTick; GTick]) = [] /\
-  gs_routes (grun ex_k [GUp (Some (3, false)); GAnn 1; GAnn 2; GLoss LTransport; GTick; GUp (Some (3, false)); GAnn 2; GEor]) = [(2, false)] /\
-  gs_routes (grun ex_k [GUp (Some (3, false)); GAnn 1; GLoss (LNotifRecv 6 2)]) = [].
-Proof. vm_compute. auto. Qed.
+  gs_routes (grun ex_k [GUp c46; GAnn 4 1; GAnn 6 2; GLoss LTransport; GTick; GTick]) = [((4, 1), true); ((6, 2), true)] /\
+  gs_routes (grun ex_k [GUp c46; GAnn 4 1; GAnn 6 2; GLoss LTransport; GTick; GTick; GTick]) = [] /\
+  gs_routes (grun ex_k [GUp c4; GAnn 4 1; GAnn 6 2; GLoss LTransport]) = [((4, 1), true)] /\
+  gs_routes (grun ex_k [GUp c46; GAnn 4 1; GAnn 6 2; GLoss LTransport; GTick; GUp c4; GAnn 4 1; GEor 4]) = [((4, 1), false)] /\
+  gs_routes (grun ex_k [GUp c46; GAnn 4 1; GLoss (LNotifRecv 6 2)]) = [].
+Proof. vm_compute. auto 10. Qed.
